@@ -1,7 +1,7 @@
 SPECIFICATION Spec
 CONSTANTS
   Cap = 2
-  Scripts <- MCScripts
+  Scripts <- MCScripts4
   Sequential = FALSE
   Mode = "mc"
   EmitTR = TRUE
